@@ -183,6 +183,24 @@ class Program:
     def _ce(self, n, mod, cls):
         if isinstance(n, ast.Constant):
             return n.value
+        if isinstance(n, ast.Subscript):
+            base = self._ce(n.value, mod, cls)
+            if isinstance(base, (tuple, list, str)):
+                sl = n.slice
+                try:
+                    if isinstance(sl, ast.Slice):
+                        lo = self._ce(sl.lower, mod, cls) if sl.lower is not None else None
+                        hi = self._ce(sl.upper, mod, cls) if sl.upper is not None else None
+                        st = self._ce(sl.step, mod, cls) if sl.step is not None else None
+                        if all(x is None or (isinstance(x, int) and not isinstance(x, bool)) for x in (lo, hi, st)):
+                            return base[lo:hi:st]
+                    else:
+                        i = self._ce(sl, mod, cls)
+                        if isinstance(i, int) and not isinstance(i, bool):
+                            return base[i]
+                except (IndexError, ValueError):
+                    pass
+            raise _NotConst
         if isinstance(n, ast.Name):
             # class-body scope, then module scope
             c = cls
